@@ -149,7 +149,7 @@ Definition own_here (c : client) (e : event) : client * rk :=
 Definition app_here (c : client) (e : event) (rec_epoch : N) : client * rk :=
   let k := kc c in
   let readable := (e_epoch e =? k_epoch k) || existsb (fun es => (fst es =? e_epoch e) && (snd es =? e_state e)) (k_past k) in
-  if negb readable || existsb (N.eqb (e_msg e)) (k_seen k) then fail_unprocessable c e rec_epoch else
+  if negb readable || existsb (N.eqb (e_msg e)) (k_seen k) || (e_bad e =? 7) then fail_unprocessable c e rec_epoch else
   let c := set_core c (with_seen k (e_msg e :: k_seen k)) in
   let c1 := set_msgs c (aset N.eqb (e_msg e) (mkM MS_PROCESSED (k_epoch k) (e_id e) (e_msg e)) (msgs c)) in
   let c2 := put_dedup c1 (e_id e) PS_PROCESSED (Some (k_epoch k)) (Some (e_msg e)) in
@@ -323,7 +323,7 @@ Qed.
 Lemma Inv_app_here c e r : Inv c -> Inv (fst (app_here c e r)).
 Proof.
   intros H. unfold app_here.
-  destruct (negb _ || existsb (N.eqb (e_msg e)) (k_seen (kc c))); [exact H|].
+  destruct (negb _ || existsb (N.eqb (e_msg e)) (k_seen (kc c)) || (e_bad e =? 7)); [exact H|].
   cbn [fst]. apply Inv_set_core; [|exact H].
   apply core_ok_upd_last. exact (proj1 H).
 Qed.
@@ -441,7 +441,7 @@ Proof.
     + destruct (d_msg d) as [m|]; [|reflexivity]. destruct (dget m (msgs c)); reflexivity.
     + destruct (d_state d =? PS_COMMIT); reflexivity.
   - destruct (e_kind e =? 1).
-    + unfold app_here. destruct (negb _ || existsb (N.eqb (e_msg e)) (k_seen (kc c))); reflexivity.
+    + unfold app_here. destruct (negb _ || existsb (N.eqb (e_msg e)) (k_seen (kc c)) || (e_bad e =? 7)); reflexivity.
     + destruct (e_kind e =? 2).
       * unfold leave_here. destruct (existsb (N.eqb (100000 + e_id e)) (k_seen (kc c))); [reflexivity|].
         destruct (is_admin c && _); reflexivity.
@@ -486,7 +486,7 @@ Proof.
     + destruct (d_msg d) as [m|]; [|reflexivity]. destruct (dget m (msgs c)); [discriminate|reflexivity].
     + destruct (d_state d =? PS_COMMIT); [discriminate|reflexivity].
   - destruct (N.eqb_spec (e_kind e) 1) as [K1|K1].
-    + revert Href. unfold app_here. destruct (negb _ || existsb (N.eqb (e_msg e)) (k_seen (kc c))); [reflexivity|discriminate].
+    + revert Href. unfold app_here. destruct (negb _ || existsb (N.eqb (e_msg e)) (k_seen (kc c)) || (e_bad e =? 7)); [reflexivity|discriminate].
     + destruct (N.eqb_spec (e_kind e) 2) as [K2|K2].
       * revert Href. unfold leave_here. destruct (existsb (N.eqb (100000 + e_id e)) (k_seen (kc c))); [reflexivity|].
         destruct (is_admin c) eqn:Ea; cbn [andb].
@@ -672,7 +672,7 @@ Proof.
   1,3: unfold here; change (me (ens c)) with (me c);
        (destruct (N.eqb_spec (e_author e) (me c)) as [E|_]; [contradiction|]);
        (destruct (e_kind e =? 1);
-        [unfold app_here; destruct (negb _ || existsb (N.eqb (e_msg e)) (k_seen (kc (ens c)))); [discriminate|]; intros _;
+        [unfold app_here; destruct (negb _ || existsb (N.eqb (e_msg e)) (k_seen (kc (ens c))) || (e_bad e =? 7)); [discriminate|]; intros _;
          cbn [fst set_core put_dedup set_dedup set_msgs msgs ens];
          eexists; split; [apply dget_aset_same|split; [reflexivity|apply aset_filter_one; exact Hnd]]
         |]);
@@ -715,7 +715,7 @@ Proof.
       cbn [fst put_dedup set_dedup set_msgs msgs]. apply aset_nodup. exact Hnd.
     + destruct (d_state d =? PS_COMMIT); exact Hnd.
   - destruct (e_kind e =? 1).
-    + unfold app_here. destruct (negb _ || existsb (N.eqb (e_msg e)) (k_seen (kc c))); [exact Hnd|].
+    + unfold app_here. destruct (negb _ || existsb (N.eqb (e_msg e)) (k_seen (kc c)) || (e_bad e =? 7)); [exact Hnd|].
       cbn [fst set_core put_dedup set_dedup set_msgs msgs]. apply aset_nodup. exact Hnd.
     + destruct (e_kind e =? 2).
       * unfold leave_here. destruct (existsb (N.eqb (100000 + e_id e)) (k_seen (kc c))); [exact Hnd|].
@@ -1010,7 +1010,7 @@ Lemma settled_app_here c e r :
   Settled e (fst (app_here c e r)).
 Proof.
   intros K3 Hs Hw Hme K1. unfold app_here.
-  destruct (negb _ || existsb (N.eqb (e_msg e)) (k_seen (kc c))); [apply settled_rf|]. cbn [fst].
+  destruct (negb _ || existsb (N.eqb (e_msg e)) (k_seen (kc c)) || (e_bad e =? 7)); [apply settled_rf|]. cbn [fst].
   set (k2 := upd_last _ (e_msg e) (e_msg e)).
   pose proof (upd_last_fields (with_seen (kc c) (e_msg e :: k_seen (kc c))) (e_msg e) (e_msg e)) as F.
   cbn [put_dedup set_dedup set_msgs set_core kc me is_admin retention dedup msgs queue rollbacks] in k2, F. fold k2 in F.
@@ -1712,7 +1712,7 @@ Proof.
     + destruct (d_msg d) as [m|]; [|exact H]. destruct (dget m (msgs c)); exact H.
     + destruct (d_state d =? PS_COMMIT); exact H.
   - destruct (e_kind e =? 1).
-    + unfold app_here. destruct (negb _ || existsb (N.eqb (e_msg e)) (k_seen (kc c))); [exact H|].
+    + unfold app_here. destruct (negb _ || existsb (N.eqb (e_msg e)) (k_seen (kc c)) || (e_bad e =? 7)); [exact H|].
       cbn [fst]. revert H. apply qwf_same; [|reflexivity]. cbn [set_core kc].
       rewrite (proj1 (proj2 (upd_last_fields _ _ _))). reflexivity.
     + destruct (e_kind e =? 2).
